@@ -9,7 +9,7 @@
      ByTheorem    a theorem of coq/Crash (the term is checked here: the name must exist and prove P)
      Delegated    a theorem of another property, by name (checks/c10.py verifies that coq/Props/<id>.v
                   still states it; no Coq-level dependency on the other areas)
-     KnownDefect  the site IS reachable on the unchanged tree: a refuted-lemma with the witness, and
+     KnownDefect  the site IS reachable in the current tree: a refuted-lemma with the witness, and
                   the key of the finding in known_findings.txt
      Hook         verification hook
      Unproved     explicitly open, with the reason
@@ -115,9 +115,7 @@ Definition ledger : list (string * coverage) := [
   ("core/src/eval/stack.rs::Iterator for StackMarkerIter<'_, C>::next:expect#1",
    Delegated "C18" "C18_stack_typed" "coq/Mem: every pop/read happens at the type the marker selects; see also C18_sites_all_covered for the unsafe sites");
   ("core/src/pretty.rs::PrettyPrintCap::pretty_print_cap:libcall#1",
-   KnownDefect "panic:core/src/pretty.rs:called_Option::unwrap_on_a_None_value" "pretty_print_cap_panics" _ pretty_print_cap_panics "reachable: output.len() counts bytes, nth(max_width) counts characters (proposed/C10-pretty-print-cap.diff)");
-  ("core/src/pretty.rs::PrettyPrintCap::pretty_print_cap:unwrap#1",
-   KnownDefect "panic:core/src/pretty.rs:called_Option::unwrap_on_a_None_value" "pretty_print_cap_panics" _ pretty_print_cap_panics "reachable: output.len() counts bytes, nth(max_width) counts characters (proposed/C10-pretty-print-cap.diff)");
+   ByTheorem "no_panic_pretty_print_cap_fixed" _ no_panic_pretty_print_cap_fixed "char_indices().nth(max_width) is matched, not unwrapped, since 03ad279 (pretty_print_cap_panics: before that commit it panicked when bytes > max_width >= characters)");
   ("core/src/pretty.rs::PrettyPrintCap::pretty_print_cap:index#1",
    Unproved "output[..end] with end taken from char_indices(): a char boundary by construction; not modelled");
   ("core/src/term/string.rs::NickelString::substring:sub#1",
@@ -125,7 +123,7 @@ Definition ledger : list (string * coverage) := [
   ("core/src/term/string.rs::NickelString::find_all_regex:unwrap#1",
    Unproved "capt.get(0).unwrap(): group 0 always participates in a match (guarantee of the regex crate, not modelled)");
   ("core/src/term/string.rs::NickelString::find_all_regex:expect#1",
-   KnownDefect "panic:core/src/term/string.rs:We_already_know_that_first_match.start_occurs_on_a_clust" "find_all_index_panics" _ find_all_index_panics "reachable: an empty match at the end of the string starts at offset len, which grapheme_indices never yields (proposed/C10-find-all-empty-match.diff; no_panic_find_all_fixed for the repair)");
+   ByTheorem "no_panic_find_all_fixed" _ no_panic_find_all_fixed "the start of a match that passed does_match_start_and_end_on_boundary is one of the cluster offsets or the length of the string, both searched since c9daf53 (find_all_index_panics_iff: before that commit an empty match at the end panicked)");
   ("core/src/typecheck/reporting.rs::NameReg::gen_candidate_name:cast#1",
    ByTheorem "no_panic_candidate_char" _ no_panic_candidate_char "'a' + (next % 26) is a valid scalar value; the casts are on values below 26 / equal to 97");
   ("core/src/typecheck/reporting.rs::NameReg::gen_candidate_name:cast#2",
@@ -198,16 +196,8 @@ Definition ledger : list (string * coverage) := [
    Delegated "C20" "C20_package_map_no_crash" "coq/Pkg");
   ("parser/src/error.rs::ParseError::from_serde_json:sub#1",
    Unproved "error.line() - 1 guarded by the test error.line() == 0 just above; not modelled");
-  ("parser/src/error.rs::ParseError::from_serde_json:cast#1",
-   ByTheorem "mk_span_id" _ mk_span_id "usize as u32 truncates: identity for offsets of sources shorter than 4 GiB (hypothesis of the theorem; larger sources are not covered)");
   ("parser/src/error.rs::ParseError::from_serde_json:unwrap#1",
    Unproved "location.unwrap() under start.map(..): start is Some only if location was Some (line_span is derived from location); data-flow fact, not modelled (only reachable with feature nix-experimental)");
-  ("parser/src/error.rs::ParseError::from_yaml:cast#1",
-   ByTheorem "mk_span_id" _ mk_span_id "usize as u32 truncates: identity for offsets of sources shorter than 4 GiB (hypothesis of the theorem; larger sources are not covered)");
-  ("parser/src/error.rs::ParseError::from_toml:cast#1",
-   ByTheorem "mk_span_id" _ mk_span_id "usize as u32 truncates: identity for offsets of sources shorter than 4 GiB (hypothesis of the theorem; larger sources are not covered)");
-  ("parser/src/error.rs::ParseError::from_toml:cast#2",
-   ByTheorem "mk_span_id" _ mk_span_id "usize as u32 truncates: identity for offsets of sources shorter than 4 GiB (hypothesis of the theorem; larger sources are not covered)");
   ("parser/src/lexer.rs::symbolic_string_prefix_and_length:expect#1",
    Unproved "rsplit_once('-') on a slice matched by the regex [a-zA-Z][_a-zA-Z0-9-']*-s(%+)"": the regex contains the '-'; logos regex semantics are not modelled (sampled by the lextrace correspondence)");
   ("parser/src/lexer.rs::Lexer<'input>::enter_strlike:panic#1",
@@ -240,8 +230,6 @@ Definition ledger : list (string * coverage) := [
    ByTheorem "lexer_no_panic" _ lexer_no_panic "mode-switch panic: excluded by the alternation invariant of the mode stack for every raw token sequence");
   ("parser/src/lexer.rs::Iterator for Lexer<'input>::next:unwrap#1",
    ByTheorem "lexer_consumes" _ lexer_consumes "self.lexer is None only inside enter_*/leave_*, which restore it on every non-panicking path; those paths never panic");
-  ("parser/src/lexer.rs::normalize_line_endings:debug_assert#1",
-   KnownDefect "panic:parser/src/lexer.rs:The_lexer_throws_an_error_when_it_finds_a_lone_carriage_retu" "lone_cr_reaches_literal" _ lone_cr_reaches_literal "reachable: the greedy literal regexes swallow a lone carriage return that is not at the start of the literal; debug assertion fails (proposed/C10-lexer-lone-cr.diff)");
   ("parser/src/utils.rs::mk_span:cast#1",
    ByTheorem "mk_span_id" _ mk_span_id "usize as u32 truncates: identity for offsets of sources shorter than 4 GiB (hypothesis of the theorem; larger sources are not covered)");
   ("parser/src/utils.rs::mk_span:cast#2",
